@@ -338,8 +338,125 @@ async fn one_life(case: &Case, store: &ModelStore, group: &e2::Group) -> Result<
     Ok((nontrivial, inside))
 }
 
+/// Exhaustive small scope (the statement's quantifier: "for all request histories and every crash point"): every history
+/// of up to four requests on one keyspace — set / delete of keys {1,2} at four stamps (two origins; two stamps of
+/// origin 1 lie more than a forgiveness period after its first, so both sources can move past it and a purge can bite) through either source, each stamp used at most once, and
+/// purges — and every stop: after each request and inside each request.
+/// Words: [len, crash_after, inside, slot x len] with slot 0 = purge, else 1 + 8 * stamp index + (key | kind | source bits).
+pub struct C07Small;
+
+/// decodes one slot of a small-scope history (see `C07Small`)
+pub fn small_req(w: u64) -> Req {
+    use crate::c02::W;
+    let stamps = [
+        Stamp { secs: 100_000, frac: 0, counter: 0, node: 1 },
+        Stamp { secs: 100_001, frac: 0, counter: 0, node: 2 },
+        Stamp { secs: 103_601, frac: 0, counter: 0, node: 1 },
+        Stamp { secs: 103_602, frac: 0, counter: 0, node: 1 },
+    ];
+    if w == 0 {
+        return Req::Purge { ks: 0 };
+    }
+    let si = (((w - 1) / 8) % 4) as usize;
+    let bits = (w - 1) % 8;
+    let doc = W { key: 1 + (bits & 1), stamp: stamps[si], len: 3 };
+    let source = ((bits >> 2) & 1) as usize;
+    if bits & 2 != 0 {
+        Req::Del { ks: 0, source, w: doc }
+    } else {
+        Req::Set { ks: 0, source, w: doc }
+    }
+}
+
+pub fn small_histories() -> Vec<Vec<u64>> {
+    fn rec(cur: &mut Vec<u64>, used: u8, stamped: usize, out: &mut Vec<Vec<u64>>) {
+        if !cur.is_empty() && stamped > 0 {
+            out.push(cur.clone());
+        }
+        if cur.len() == 4 {
+            return;
+        }
+        cur.push(0);
+        rec(cur, used, stamped, out);
+        cur.pop();
+        for si in 0..4u8 {
+            if used & (1 << si) != 0 {
+                continue;
+            }
+            for bits in 0..8u64 {
+                cur.push(1 + 8 * si as u64 + bits);
+                rec(cur, used | (1 << si), stamped + 1, out);
+                cur.pop();
+            }
+        }
+    }
+    let mut out = vec![];
+    rec(&mut vec![], 0, 0, &mut out);
+    out
+}
+
+pub fn small_space() -> Vec<Vec<u64>> {
+    let mut out = vec![];
+    for h in small_histories() {
+        let len = h.len() as u64;
+        for inside in 0..2u64 {
+            let range = if inside == 1 { 0..len } else { 1..len + 1 };
+            for crash_after in range {
+                let mut w = vec![len, crash_after, inside];
+                w.extend(&h);
+                out.push(w);
+            }
+        }
+    }
+    out
+}
+
+impl Prop for C07Small {
+    type Case = Case;
+
+    fn id(&self) -> &'static str {
+        "C07"
+    }
+
+    fn part(&self) -> &'static str {
+        "restart-small-scope"
+    }
+
+    fn width(&self) -> usize {
+        8
+    }
+
+    fn shrink_budget(&self) -> usize {
+        200
+    }
+
+    fn gen(&self, src: &mut Src) -> Case {
+        let len = src.word().clamp(1, 4) as usize;
+        let crash_after = (src.word() as usize).min(len);
+        let inside_next = src.word() & 1 == 1;
+        let reqs: Vec<(Req, Option<Fault>)> = (0..len).map(|_| (small_req(src.word()), None)).collect();
+        let crash_after = if inside_next { crash_after.min(len - 1) } else { crash_after.max(1) };
+        Case { reqs, crash_after, inside_next, second: None, extra_keyspaces: 0, load_read_fault: None }
+    }
+
+    fn run(&self, case: &Case) -> Outcome {
+        C07.run(case)
+    }
+
+    fn describe(&self, case: &Case) -> Value {
+        C07.describe(case)
+    }
+
+    fn rule(&self) -> &'static str {
+        "exhaustive: every history of 1-4 requests on one keyspace (set / delete of keys {1,2} at four stamps of two origins, two of \
+         them more than a forgiveness period after another of the same origin so that both sources can move past it, each stamp used at most once, either source; purges \
+         anywhere) and every stop point: after each request and inside each request (storage write done, set not updated); same \
+         oracle as restart-rebuild"
+    }
+}
+
 pub fn parts() -> Vec<Box<dyn DynPart>> {
-    vec![Box::new(Gen::new(C07, 100_000, 5_000_000))]
+    vec![Box::new(Gen::new(C07, 100_000, 5_000_000)), Box::new(Gen::listed(C07Small, small_space))]
 }
 
 // ---------------------------------------------------------------------------------------
